@@ -76,6 +76,9 @@ def mk(dom, t, offset, kind='finite'):
             vals[(offset + 3) % n] = -np.inf
     elif kind == 'positive':
         vals = vals / 3.0
+    elif kind == 'tiny':
+        # strictly positive entries far below machine epsilon (small probabilities of a normalised table)
+        vals = vals / 3.0 * np.power(10.0, -(17.0 + 45.0 * (np.arange(n) % 5)))
     elif kind == 'wide':
         # slices of very different scale: finite entries spread over +-1500 (far beyond the range of exp)
         vals = vals / 7.0 + np.where(np.arange(n) % 3 == 0, 1500.0, np.where(np.arange(n) % 3 == 1, -1400.0, 0.0))
@@ -157,7 +160,7 @@ def unchanged(f, snap):
 def binary_cases(acc, dom, pat, t1, t2, seed):
     fails = []
     sub = set(t2) <= set(t1)
-    for kind in ('signed', 'neginf', 'positive'):
+    for kind in ('signed', 'neginf', 'positive', 'tiny'):
         f1, f2 = mk(dom, t1, 0, kind), mk(dom, t2, 60, kind)
         T1, T2 = table(f1), table(f2)
         s1, s2 = snapshot(f1), snapshot(f2)
@@ -171,6 +174,8 @@ def binary_cases(acc, dom, pat, t1, t2, seed):
             ops = [('*', lambda a, b: a * b, lambda: f1 * f2)]
             if sub:
                 ops.append(('/', lambda a, b: a / b, lambda: f1 / f2))
+        elif kind == 'tiny' and sub:
+            ops = [('/', lambda a, b: a / b, lambda: f1 / f2)]
         for name, fn, call in ops:
             ea, exp = expect_binary(t1, t2, T1, T2, dom, fn)
             got = call()
